@@ -189,7 +189,9 @@ prop('C18',
      units=['verus:handler_ops', 'verus:restart_ops'],
      obligations=['generator.append.*', 'generator.try_start.*', 'generator.spawn_event.*', 'generator.live.*', 'generator.spawn.*',
                   'handler_ops.generator_append.body', 'handler_ops.try_start_task.body', 'handler_ops.spawn_duplex_options.body',
-                  'restart_ops.handle_spawn_event.body', 'restart_ops.generators_live_loop.body'],
+                  'restart_ops.handle_spawn_event.body', 'restart_ops.generators_live_loop.body',
+                  # a spawn that was refused stays refused across a restart: the start-up compaction lets the .spawn.error supersede its spawn
+                  'restart.generators.*', 'restart_ops.generators_compaction_fold.body'],
      trusted=['extraction', 'sequential', 'scru128'],
      extra_assumptions=['format! / json! as in C16; std HashMap<String,_> key model; cacache: the content read back is a function of the hash; '
                         'the restart itself (sleep 1 s, spawn) is an elided async block'],
